@@ -897,7 +897,6 @@ def r4(ctx):
     # UnaryExpression.__init__
     f = ctx.func(f"{EL}::UnaryExpression.__init__")
     vals = _attr_store_values(f.node, "self.element")
-    own_ops = {unparse(v) for side in ("operator", "modifier") for v in _attr_store_values(f.node, f"self.{side}")}
     good = bool(vals)
     for v in vals:
         ag = (_self_group_against(v, f.node) or "") if isinstance(v, ast.Call) else ""
